@@ -77,6 +77,7 @@ type prover struct {
 	env    map[ssa.Value]lin     // parameter bindings while inlining a callee
 	lenEnv map[ssa.Value]lin     // len(param) bindings while inlining
 	capEnv map[ssa.Value]lin     // cap(param) bindings while inlining
+	cfVisit map[ssa.Value]bool   // recursion guard of condFacts
 	depth  int
 }
 
@@ -117,13 +118,38 @@ func (p *prover) canonLoads() {
 	}
 	loads := map[key][]*ssa.UnOp{}
 	var writers []ssa.Instruction
+	// loads of single-assignment local cells (spilled receivers/params, captured variables)
+	cellLoads := map[ssa.Value][]*ssa.UnOp{}
+	for _, b := range p.fn.Blocks {
+		for _, ins := range b.Instrs {
+			if x, ok := ins.(*ssa.UnOp); ok && x.Op == token.MUL {
+				switch c := x.X.(type) {
+				case *ssa.Alloc:
+					if v := singleStore(c); v != nil {
+						p.canon[x] = v
+					}
+				case *ssa.FreeVar:
+					if !hasStore(c) {
+						cellLoads[c] = append(cellLoads[c], x)
+					}
+				}
+			}
+		}
+	}
+	for _, ls := range cellLoads {
+		for _, l := range ls[1:] {
+			if ls[0].Block().Dominates(l.Block()) && ls[0] != l {
+				p.canon[l] = ls[0]
+			}
+		}
+	}
 	for _, b := range p.fn.Blocks {
 		for _, ins := range b.Instrs {
 			switch x := ins.(type) {
 			case *ssa.UnOp:
 				if x.Op == token.MUL {
 					if fa, ok := x.X.(*ssa.FieldAddr); ok {
-						k := key{fa.X, fa.Field}
+						k := key{p.rep(fa.X), fa.Field}
 						loads[k] = append(loads[k], x)
 					}
 				}
@@ -162,9 +188,6 @@ func (p *prover) canonLoads() {
 		return -1
 	}
 	for k, ls := range loads {
-		if len(ls) < 2 {
-			continue
-		}
 		bad := false
 		for _, w := range writers {
 			affects := false
@@ -175,7 +198,7 @@ func (p *prover) canonLoads() {
 				}
 			case *ssa.Call:
 				for _, a := range x.Call.Args {
-					if a == k.base {
+					if p.rep(a) == k.base {
 						affects = true
 					}
 				}
@@ -203,6 +226,61 @@ func (p *prover) canonLoads() {
 		if bad {
 			continue
 		}
+		// store-to-load forwarding: a store to this field of this base that dominates a load with no
+		// other writer in between makes the load equal to the stored value
+		for _, l := range ls {
+			var src *ssa.Store
+			for _, w := range writers {
+				st, ok := w.(*ssa.Store)
+				if !ok {
+					continue
+				}
+				fa, ok := st.Addr.(*ssa.FieldAddr)
+				if !ok || fa.Field != k.field || p.rep(fa.X) != k.base {
+					continue
+				}
+				domL := (st.Block() == l.Block() && idxIn(st) < idxIn(l)) || (st.Block() != l.Block() && st.Block().Dominates(l.Block()))
+				if domL && (src == nil || src.Block().Dominates(st.Block())) {
+					src = st
+				}
+			}
+			if src == nil {
+				continue
+			}
+			clean := true
+			for _, w := range writers {
+				if w == ssa.Instruction(src) {
+					continue
+				}
+				affects := false
+				switch x := w.(type) {
+				case *ssa.Store:
+					if fa, ok := x.Addr.(*ssa.FieldAddr); ok && fa.Field == k.field && types.Identical(fa.X.Type(), k.base.Type()) {
+						affects = true
+					}
+				case *ssa.Call:
+					for _, a := range x.Call.Args {
+						if p.rep(a) == k.base {
+							affects = true
+						}
+					}
+					if x.Call.IsInvoke() {
+						affects = true
+					}
+				}
+				if !affects {
+					continue
+				}
+				afterSrc := (w.Block() == src.Block() && idxIn(w) > idxIn(src)) || (w.Block() != src.Block() && reach(src.Block(), w.Block()))
+				beforeL := (w.Block() == l.Block() && idxIn(w) < idxIn(l)) || (w.Block() != l.Block() && reach(w.Block(), l.Block()))
+				if afterSrc && beforeL {
+					clean = false
+				}
+			}
+			if clean {
+				p.canon[l] = src.Val
+			}
+		}
 		// representative: a load that dominates the other (same block: the earlier one)
 		doms := func(a, b *ssa.UnOp) bool {
 			if a.Block() == b.Block() {
@@ -218,10 +296,65 @@ func (p *prover) canonLoads() {
 				}
 			}
 			if best != nil {
-				p.canon[l] = best
+				if _, fwd := p.canon[l]; !fwd {
+					p.canon[l] = best
+				}
 			}
 		}
 	}
+}
+
+// singleStore: the local cell is assigned exactly once (and closures capturing it never assign it).
+func singleStore(a *ssa.Alloc) ssa.Value {
+	var val ssa.Value
+	n := 0
+	for _, u := range *a.Referrers() {
+		switch x := u.(type) {
+		case *ssa.Store:
+			if x.Addr == ssa.Value(a) {
+				val = x.Val
+				n++
+			} else {
+				return nil
+			}
+		case *ssa.UnOp, *ssa.DebugRef:
+		case *ssa.MakeClosure:
+			fn := x.Fn.(*ssa.Function)
+			for i, b := range x.Bindings {
+				if b == ssa.Value(a) && hasStore(fn.FreeVars[i]) {
+					return nil
+				}
+			}
+		default:
+			return nil
+		}
+	}
+	if n == 1 {
+		return val
+	}
+	return nil
+}
+
+func hasStore(fv *ssa.FreeVar) bool {
+	for _, u := range *fv.Referrers() {
+		switch x := u.(type) {
+		case *ssa.Store:
+			if x.Addr == ssa.Value(fv) {
+				return true
+			}
+		case *ssa.MakeClosure:
+			fn := x.Fn.(*ssa.Function)
+			for i, b := range x.Bindings {
+				if b == ssa.Value(fv) && hasStore(fn.FreeVars[i]) {
+					return true
+				}
+			}
+		case *ssa.UnOp, *ssa.DebugRef:
+		default:
+			return true
+		}
+	}
+	return false
 }
 
 func (p *prover) rep(v ssa.Value) ssa.Value {
@@ -337,6 +470,7 @@ func (p *prover) structField(v ssa.Value) (s ssa.Value, f int, ok bool) {
 }
 
 func (p *prover) toLin(v ssa.Value, facts *[]cons) lin {
+	v = p.rep(v)
 	if i, ok := intConst(v); ok {
 		return konst(i)
 	}
@@ -556,6 +690,7 @@ func (p *prover) inlineCall(callee *ssa.Function, call *ssa.Call, facts *[]cons)
 }
 
 func (p *prover) lenLin(v ssa.Value, facts *[]cons) lin {
+	v = p.rep(v)
 	if p.lenEnv != nil {
 		if l, ok := p.lenEnv[v]; ok {
 			return l.clone()
@@ -604,6 +739,7 @@ func (p *prover) lenLin(v ssa.Value, facts *[]cons) lin {
 
 // capLin: capacity of a slice value as an atom >= its length.
 func (p *prover) capLin(v ssa.Value, facts *[]cons) lin {
+	v = p.rep(v)
 	if p.capEnv != nil {
 		if l, ok := p.capEnv[v]; ok {
 			return l.clone()
@@ -657,6 +793,14 @@ func negOp(op token.Token) token.Token {
 }
 
 func (p *prover) condFacts(cond ssa.Value, truth bool, facts *[]cons) {
+	if p.cfVisit == nil {
+		p.cfVisit = map[ssa.Value]bool{}
+	}
+	if p.cfVisit[cond] || len(p.cfVisit) > 40 {
+		return
+	}
+	p.cfVisit[cond] = true
+	defer delete(p.cfVisit, cond)
 	switch c := cond.(type) {
 	case *ssa.BinOp:
 		switch c.Op {
